@@ -1,14 +1,137 @@
 (* Window predicates of the recorded known findings of C05 (see known_findings.d/ugm.json).
    An oracle failure inside a window is reported with the kind of the finding instead of the
-   oracle's kind; everything else stays a violation. *)
+   oracle's kind; everything else stays a violation.  The windows are evaluated at the reload
+   that causes the failure, on the implementation's state before (s) and after (s') that
+   UpdateConfig call, and the verdict is remembered for the (who, queue) pair until the failure
+   disappears:
+     kind 20  C05-lost-named-limit   a named limit of the new configuration is missing because a
+              limit of the same user/group on an ancestor queue was dropped by the same reload
+              and the tracker below that ancestor ran no application (unlink removes it);
+     kind 21  C05-stale-wildcard     a user keeps the wild card limit of the previous
+              configuration: the wild card was dropped from a queue that has named user limits
+              in the old and in the new configuration;
+     kind 14  C05-group-reset-usage  group usage differs from the live allocations after a
+              reload dropped a limit of that group (usage and application links are wiped,
+              also for applications that are still running);
+     kind 17  C05-reload-order       the outcome of a reload depends on the Go map iteration
+              order of the group reset phase. *)
 From Coq Require Import List NArith ZArith Bool.
 From YK Require Import Base.Int64 Base.Res Ugm.Tracker Ugm.Manager Ugm.UgmSpec.
 Import ListNotations.
 Open Scope N_scope.
 
+Definition conf_limits (c : qconf) (h : path) : option (list limit) :=
+  match h with
+  | [] => None
+  | _ :: rest => match conf_at c rest with Some (QConf _ ls _) => Some ls | None => None end
+  end.
+Definition named_in (c : qconf) (w : who) (h : path) : bool :=
+  match conf_limits c h with
+  | Some ls => match w with
+               | User u => match named_limit ls lim_users u with Some _ => true | None => false end
+               | Group g => match named_limit ls lim_groups g with Some _ => true | None => false end
+               end
+  | None => false
+  end.
+Definition wild_in (c : qconf) (h : path) : bool :=
+  match conf_limits c h with
+  | Some ls => match named_limit ls lim_users WILD with Some _ => true | None => false end
+  | None => false
+  end.
+Definition strict_prefixes (h : path) : list path := removelast (prefixes h).
+Definition no_apps_at (s : ugm_state) (w : who) (h : path) : bool :=
+  match node s w h with Some q => match q_apps q with [] => true | _ => false end | None => true end.
+
+(* C05-lost-named-limit.  unlink removes a tracker that runs no application; for a group the
+   reset first wipes usage and applications of every tracker below the ancestor that has usage *)
+Definition unlinkable (s : ugm_state) (w : who) (h : path) : bool :=
+  match w with
+  | User _ => no_apps_at s w h
+  | Group _ => match node s w h with
+               | Some q => match q_apps q with [] => true | _ => negb (IsZero (q_usage q)) end
+               | None => true
+               end
+  end.
+Definition lost_named (prev conf : qconf) (s : ugm_state) (w : who) (h : path) : bool :=
+  named_in conf w h && unlinkable s w h &&
+  existsb (fun h' => named_in prev w h' && negb (named_in conf w h') && unlinkable s w h') (strict_prefixes h).
+
+(* C05-stale-wildcard *)
+Definition stale_wild (conf : qconf) (s s' : ugm_state) (w : who) (h : path) : bool :=
+  match w with
+  | User u =>
+      negb (named_in conf w h) && negb (wild_in conf h) &&
+      has_path (userLimits s) h && has_path (userLimits s') h &&
+      match plookup (userWild s) h, node s' w h with
+      | Some cfg, Some q => q_wild q && nlimit_eqb (norm_limit (q_max q) (q_maxApps q)) (norm_limit (l_max cfg) (l_apps cfg))
+      | _, _ => false
+      end
+  | Group _ => false
+  end.
+
+Definition who_eqb (a b : who) : bool :=
+  match a, b with User x, User y => x =? y | Group x, Group y => x =? y | _, _ => false end.
+
+Record taint := mkTaint {
+  t_apps : list app;                    (* unlinked from their group by a reload while holding resources *)
+  t_groups : list gname;                (* a limit of the group was dropped by a reload *)
+  t_excused : list (who * path * N) }.  (* configuration oracle failures inside a window, with the kind *)
+Definition taint0 := mkTaint [] [] [].
+
+Definition excused_kind (t : taint) (w : who) (h : path) : option N :=
+  match find (fun x => who_eqb (fst (fst x)) w && path_eqb (snd (fst x)) h) (t_excused t) with
+  | Some x => Some (snd x)
+  | None => None
+  end.
+
+(* the kind of a configuration oracle failure for (w, h) right after a reload prev -> conf that
+   took the state from s to s'; 5 = outside every window *)
+Definition limit_kind_at_reload (t : taint) (prev : option qconf) (conf : qconf) (s s' : ugm_state) (w : who) (h : path) : N :=
+  match prev with
+  | None => 5
+  | Some pc =>
+      if lost_named pc conf s w h then 20
+      else if stale_wild conf s s' w h then 21
+      else match excused_kind t w h with
+           | Some k => if nlimit_eqb (in_force s' w h) (in_force s w h) && nlimit_eqb (spec_limit conf w h) (spec_limit pc w h)
+                       then k else 5
+           | None => 5
+           end
+  end.
+(* between reloads the verdict of the last reload stands *)
+Definition limit_kind_between (t : taint) (w : who) (h : path) : N :=
+  match excused_kind t w h with Some k => k | None => 5 end.
+
+Definition has_entry (l : ledger) (a : app) : bool := existsb (fun e => le_app e =? a) l.
+Definition link_is (s : ugm_state) (u : uname) (a : app) (g : gname) : bool :=
+  match link s u a with Some g' => g' =? g | None => false end.
+
+(* taints after a step: [failing] are the configuration oracle failures after the step with
+   their kinds (only used at reloads) *)
+Definition taint_step (t : taint) (isreload : bool) (prev : option qconf) (conf : option qconf)
+           (gnames : list gname) (paths : list path) (s s' : ugm_state) (l' : ledger)
+           (failing : list (who * path * N)) : taint :=
+  let apps0 := filter (has_entry l') (t_apps t) in
+  if negb isreload then mkTaint apps0 (t_groups t) (t_excused t) else
+  let unlinked := flat_map (fun e => match link s (le_user e) (le_app e) with
+                                     | Some g => if link_is s' (le_user e) (le_app e) g then [] else [le_app e]
+                                     | None => []
+                                     end) l' in
+  let dropped_g := match prev, conf with
+                   | Some pc, Some cf =>
+                       filter (fun g => existsb (fun p => named_in pc (Group g) p && negb (named_in cf (Group g) p)) paths) gnames
+                   | _, _ => []
+                   end in
+  mkTaint (apps0 ++ unlinked) (t_groups t ++ dropped_g) (filter (fun x => negb (snd x =? 5)) failing).
+
+(* C05-group-reset-usage *)
+Definition known_usage (t : taint) (s : ugm_state) (l : ledger) (w : who) (h : path) : bool :=
+  match w with
+  | Group g => mem g (t_groups t) ||
+               existsb (fun e => mem (le_app e) (t_apps t) && link_is s (le_user e) (le_app e) g) l
+  | User _ => false
+  end.
+
 Definition known_crash (s : ugm_state) (o : op) : bool := false.
 Definition known_enforce (b a : ugm_state) (u : uname) (ap : app) (p : path) : bool := false.
 Definition known_canrun (b a : ugm_state) (u : uname) (ap : app) (p : path) : bool := false.
-Definition known_usage (hist : list op) (s : ugm_state) (l : ledger) (w : who) (h : path) : bool := false.
-(* returns the kind: 5 = configuration oracle failure outside every window *)
-Definition known_limit (hist : list op) (prev : option qconf) (conf : qconf) (s : ugm_state) (w : who) (h : path) : N := 5.
